@@ -684,7 +684,8 @@ namespace gtry::scl::strm
 	{
 		BitWidth outByteEnableW = in.byteEnable.width() / param.ratio;
 		ByteEnable ret = { outByteEnableW };
-		ret.byteEnable = in.byteEnable(param.beat.value() * outByteEnableW.bits(), outByteEnableW);
+		// widen the beat counter before scaling it: the product must not wrap in the counter's own width (cf. utils.h reduceWidth)
+		ret.byteEnable = in.byteEnable(zext(param.beat.value(), +outByteEnableW) * outByteEnableW.bits(), outByteEnableW);
 		return ret;
 	}
 
